@@ -1,3 +1,4 @@
+import Proofs.Prune
 import Proofs.MatchSound
 import Proofs.Rules
 import Proofs.Settle
